@@ -72,6 +72,19 @@ pub fn jobs(seed: u64, thorough: bool, bad_only: bool) -> Vec<Job> {
                 let (raw, panic) = run_chain::<B64, f64, _>(t, vec![0.3 * cell, 0.4], 0.8, sd + 20 + k as u64, &[(steps.0 + 14, 0)], Some(eps0));
                 out.push(Job { label: format!("cliffs{k}/f64"), raw, panic, own: OwnN::Cliffs { cell, levels, omega2, kappa: 0.02 }, tol: 1e-7 });
             }
+            // far out in the tail: the first leaves gain thousands of units of log-density -- far ABOVE the slice level, which is
+            // not a divergence (the bound of 1000 is one-sided); forced step sizes around 1 and the start-up heuristic
+            for (k, (x0, eps0)) in [(150.0, Some(1.0)), (-220.0, Some(0.7)), (120.0, None)].into_iter().enumerate() {
+                let unit = vec![vec![1.0, 0.0], vec![0.0, 1.0]];
+                let (raw, panic) = run_chain::<B64, f64, _>(GaussP { prec: unit.clone() }, vec![x0, -0.5 * x0], 0.8, sd + 30 + k as u64, &[(6, 0)], eps0);
+                out.push(Job { label: format!("far-tail{k}/f64"), raw, panic, own: OwnN::GaussP { prec: unit }, tol: 1e-7 });
+            }
+            {
+                let (cell, levels, omega2) = (1.2, vec![0.0, 0.0, 1500.0, 0.0, 0.0, 3200.0, 3200.0, 0.0], 0.1);
+                let t = Cliffs { cell, levels: levels.clone(), omega2, kappa: 0.02 };
+                let (raw, panic) = run_chain::<B64, f64, _>(t, vec![0.3 * cell, 0.4], 0.8, sd + 40, &[(steps.0 + 6, 0)], Some(0.4));
+                out.push(Job { label: "cliffs-up/f64".into(), raw, panic, own: OwnN::Cliffs { cell, levels, omega2, kappa: 0.02 }, tol: 1e-7 });
+            }
             // immediate U-turn: very narrow Gaussian, big forced step
             let narrow = vec![vec![400.0, 0.0], [0.0, 400.0].to_vec()];
             let (raw, panic) = run_chain::<B64, f64, _>(GaussP { prec: narrow.clone() }, vec![0.01, -0.02], 0.8, sd + 6, &[(6, 0)], Some(0.09));
@@ -162,7 +175,7 @@ impl GradientTarget<f64, B64> for Script {
     }
 }
 
-const LEVEL_JOINT: [f64; 4] = [-1.0, -1.5, -50.0, -5000.0];
+const LEVEL_JOINT: [f64; 5] = [-1.0, -1.5, -50.0, -5000.0, 3000.0];
 
 pub fn replay(args: &[String]) {
     use std::collections::BTreeMap;
@@ -200,7 +213,7 @@ pub fn replay(args: &[String]) {
         if ena as usize == 1 << j && j >= 2 {
             deep += 1;
         }
-        if !es && (1..=ena as usize).all(|i| lev[i - 1] <= 2.0) {
+        if !es && (1..=ena as usize).all(|i| lev[i - 1] != 3.0) {
             uturn_stops += 1;
         }
         let mut seen = std::collections::BTreeSet::new();
